@@ -2,6 +2,7 @@ package checks
 
 import (
 	"fmt"
+	"runtime"
 
 	"verif/h/gen"
 	"verif/h/impl"
@@ -123,6 +124,10 @@ func (j *c04Job) RunUnit(i int, c *run.Ctx) {
 			continue
 		}
 		for _, m := range j.ds.modes {
+			// empty sync.Pool (two collections: primary and victim cache), so that the first calls of
+			// this path run with freshly allocated, zero-capacity pooled buffers as in a new process
+			runtime.GC()
+			runtime.GC()
 			for di := 0; di < j.ds.n(); di++ {
 				c.Tick()
 				for k, f := range []impl.Func{pr.F, pa.F} {
@@ -181,6 +186,7 @@ func init() {
 		Level: "exploration",
 		Rule:  "every (path, document, mode in {plain, accessor without Set}) is one execution; the document is compared structurally with an untouched copy after every call, success or failure; non-trivial = the call succeeds",
 		Assumptions: []string{
+			"before each path sync.Pool is emptied (two garbage collections), so pooled buffers start small as in a fresh process",
 			"deep structural comparison with a pristine copy built before the call; a difference is confirmed on a fresh document with a fresh Parse before it is reported",
 			"the clause about sharing one document between goroutines is explored by C06",
 		},
@@ -206,6 +212,8 @@ func init() {
 					}
 					d2text, _ := cs["doc2"].(string)
 					before := gen.Clone(doc)
+					runtime.GC() // as in the check: start from emptied pools
+					runtime.GC()
 					impl.Call(pr.F, doc)
 					impl.Call(pr.F, decodeDoc(d2text, mode))
 					return !sameJSON(doc, before), "first document after both calls: " + showVal(doc)
